@@ -106,3 +106,6 @@ PLAN["C18"]["quick"] = ["two", "flat", "subs", "tsubs", "fuzz", "fin", "cold13",
 
 PLAN["C17"]["quick"] = PLAN["C17"]["quick"] + ["conc"]
 PLAN["C17"]["thorough"] = PLAN["C17"]["thorough"] + ["conc"]
+
+PLAN["C07"]["quick"] = PLAN["C07"]["quick"] + ["conc"]
+PLAN["C07"]["thorough"] = PLAN["C07"]["thorough"] + ["conc"]
